@@ -15,6 +15,8 @@
                  against the metadata calls received by the backend
      KTrace      the complete backend call trace, run through the protocol
                  automaton as a monitor (draw.go is not modelled call by call)
+     KTraceRule  the same trace, one rule only (one case per rule the harness
+                 saw violated, so that known findings are matched rule by rule)
      KExpect     what the document generator knows it wrote (ids, links,
                  headings per forced page) against the anchors / links / outline
                  the backend received (names only)
@@ -41,7 +43,8 @@ Inductive case :=
 | KGather (boxes : list (list box)) (vpages : list page)
 | KDoc (zoom : Q) (vpages : list page) (geoms : list geom) (rec : list rpage) (outline : list node)
 | KMeta (els : list melem) (out : meta)
-| KTrace (npages : N) (t : list call)
+| KTrace (npages : N) (sep : list N) (t : list call)   (* rules in `sep` are reported by their own KTraceRule case *)
+| KTraceRule (r : N) (t : list call)
 | KExpect (gen : list (list gitem)) (anchors : list (list name)) (links : list (list link)) (outline : list node).
 
 (* ---------------------------------------------------------------- equalities *)
@@ -147,21 +150,20 @@ Fixpoint strip_node (n : node) : node :=
 Definition entry_eqb_names (a b : entry) : bool :=
   name_eqb (e_label a) (e_label b) && (e_page a =? e_page b)%Z.
 
-(* protocol monitor: the violations, and the summary code:
-   20 + r, r the first violated rule other than 3 if there is one, else 3 *)
+(* protocol monitor.  KTrace: 20 + the first violated rule that is not in
+   `sep`; then page count (19) and OnNewStack balance (30).  The rules the
+   harness saw violated are passed in `sep` and get one KTraceRule case each
+   (so that a violation matched by a known finding cannot hide another one). *)
 Definition trace_violations (t : list call) : list (N * N) := fst (monitor t).
-Definition trace_code (npages : N) (t : list call) : N :=
+Definition trace_code (n : N) (sep : list N) (t : list call) : N :=
   let '(v, st) := monitor t in
-  match filter (fun x => negb (snd x =? 3)) v with
+  match filter (fun x => negb (Protocol.mem (snd x) sep)) v with
   | (_, r) :: _ => 20 + r
-  | [] =>
-      match v with
-      | _ :: _ => 23
-      | [] => if negb (npages_eqb st npages) then 19
-              else if negb (balanced st) then 30 else 0
-      end
-  end
-where "'npages_eqb' st n" := (Protocol.npages st =? n) (only parsing).
+  | [] => if negb (Protocol.npages st =? n) then 19
+          else if negb (balanced st) then 30 else 0
+  end.
+Definition trace_rule_code (r : N) (t : list call) : N :=
+  if existsb (fun x => snd x =? r) (trace_violations t) then 20 + r else 0.
 
 (* ---------------------------------------------------------------- check *)
 Definition check (c : case) : N :=
@@ -194,7 +196,8 @@ Definition check (c : case) : N :=
                     | BForest f => forest_eqb entry_eqb_nolevel f outline
                     | BPanic => false end, 17) ]
   | KMeta els out => if meta_eqb (get_metadata els) out then 0 else 18
-  | KTrace n t => trace_code n t
+  | KTrace n sep t => trace_code n sep t
+  | KTraceRule r t => trace_rule_code r t
   | KExpect gen anchors links outline =>
       let ps := expect_pages gen in
       let '(ls, ans) := resolve ps in
@@ -221,7 +224,7 @@ Definition model_out (c : case) : mout :=
   | KGather boxes _ => MGather (map gather boxes)
   | KDoc zoom vpages geoms _ _ => MDoc (model_doc zoom vpages geoms) (model_outline vpages)
   | KMeta els _ => MMetaOut (get_metadata els)
-  | KTrace _ t => let '(v, st) := monitor t in MViol v (Protocol.npages st)
+  | KTrace _ _ t | KTraceRule _ t => let '(v, st) := monitor t in MViol v (Protocol.npages st)
   | KExpect gen _ _ _ => let ps := expect_pages gen in
                          let '(ls, ans) := resolve ps in MDoc [] (model_outline ps)
   end.
